@@ -498,6 +498,10 @@ func newBuffer(br *Reader) (*buffer, error) {
 	}
 	n, err = io.ReadFull(br.r, b.data)
 	if err != nil {
+		if err == io.EOF {
+			// The record length was read but the record is missing.
+			err = io.ErrUnexpectedEOF
+		}
 		return nil, err
 	}
 	if n != size {
